@@ -19,6 +19,8 @@ DEFAULT_OPTS = {
   "reset": True,
   "uu": False,               # explicit U(a) < U(b) between independent blocks
   "min_comb": 1,
+  "min_depth": 0,
+  "child_bias": 0,           # extra weight for instantiating children in a step
   "ff_heavy": False,         # C07: many registers, one ff block per register, ff blocks read each other's registers
 }
 
@@ -413,7 +415,7 @@ class ClassBuilder:
         regs.append((mkref(n), t)); self.avail.append((mkref(n), t))
     nsteps = d(st.integers(o["min_comb"], o["max_steps"]))
     for _ in range(nsteps):
-      if d(st.integers(0, 3)) == 0: self.step_child()
+      if d(st.integers(0, 3)) <= o["child_bias"]: self.step_child()
       else: self.step_signals()
     # ff blocks, created last so they may read everything
     self.regs = regs
@@ -442,7 +444,7 @@ def designs(draw, **kw):
   pool = {}
   classes = {}
   # leaf classes first, then classes that may instantiate earlier ones
-  levels = draw(st.integers(0, opts["max_depth"]))
+  levels = draw(st.integers(min(opts["min_depth"], opts["max_depth"]), opts["max_depth"]))
   idx = 0
   for lvl in range(levels):
     for _ in range(draw(st.integers(1, 2))):
